@@ -2,7 +2,15 @@
 
 package props
 
-import "github.com/grindlemire/go-lucene/internal/verifrt"
+import (
+	"github.com/grindlemire/go-lucene/internal/verifrt"
+	"github.com/grindlemire/go-lucene/verif/core"
+)
+
+func init() {
+	// read without synchronisation from the watchdog goroutine: only "did it change" matters
+	core.ProgressProbe = func() uint64 { return verifrt.Ticks }
+}
 
 // tickEnabled reports whether the step sanitizer overlay is compiled in.
 const tickEnabled = true
